@@ -277,6 +277,35 @@ def run_loops(desc):
                     f'expected stray {sorted(want)}, result {oc.value!r} '
                     f'(links {desc["links"]!r})',
                     sig='linked-files-mishandled:verify', classes=classes)
+        # 1b. the same starting from each directory of the tree
+        for d in desc['dirs']:
+            if any(comp_prefix(i, d) for i in desc['ignores']):
+                continue
+            rw2 = RefWalk(root, desc['ignores'])
+            rw2.walk(d)
+            if rw2.overflow:
+                continue
+            with ScandirBudget(root, limit):
+                oc = gem.verify_lib(root, d, fail_handler=lambda e: False)
+            if rw2.loop is not None and oc.kind != 'loop':
+                return violation(
+                    f'verify of sub-path {d!r}: symlink {rw2.loop!r} leads '
+                    f'back to an ancestor (links {desc["links"]!r}) but the '
+                    f'result was {oc.describe()}',
+                    sig='loop-not-raised:verify-subpath:' + oc.kind,
+                    classes=classes)
+            if rw2.loop is None and oc.kind == 'loop':
+                return violation(
+                    f'verify of sub-path {d!r}: ManifestSymlinkLoop raised '
+                    f'although no followed link leads back to an ancestor '
+                    f'(links {desc["links"]!r}): {oc.exc}',
+                    sig='false-loop:verify-subpath', classes=classes)
+            if oc.kind == 'other' and isinstance(oc.exc, BudgetExceeded):
+                return violation(
+                    f'verify of sub-path {d!r} does not terminate',
+                    sig='walk-exceeds-step-bound:verify-subpath',
+                    classes=classes)
+            classes.append('sub-path-verified')
         # 2. unregistered-Manifest scan
         with ScandirBudget(root, limit):
             oc = gem.call(lambda: gem.loader(root)
@@ -590,7 +619,84 @@ def run_xdev(desc):
         harness.rmtree(base)
 
 
+# --- directories that a profile ignores by default ---------------------------
+
+PROFILE_IGNORED = ['distfiles', 'local', 'lost+found', 'packages']
+
+
+def enum_profile_ignored(tier, shard, nshards):
+    i = 0
+    for profile in ('ebuild', 'old-ebuild'):
+        for name in PROFILE_IGNORED:
+            for what in ('loop', 'foreign'):
+                for cmd in ('create', 'update'):
+                    if i % nshards == shard:
+                        yield {'profile': profile, 'name': name,
+                               'what': what, 'cmd': cmd}
+                    i += 1
+
+
+def run_profile_ignored(desc):
+    """A loop or another filesystem beneath a directory that the profile
+    IGNOREs by default (distfiles, local, ...) is as invisible as beneath any
+    other IGNOREd path - also while the top-level Manifest is being created."""
+    if desc['what'] == 'foreign' and not mountns.available():
+        return skip('no-mount-namespace')
+    base = harness.fresh_dir('c16p')
+    root = os.path.join(base, 'repo')
+    try:
+        os.makedirs(os.path.join(root, 'cat', 'pkg'))
+        os.makedirs(os.path.join(root, desc['name'], 'inner'))
+        with open(os.path.join(root, 'cat', 'pkg', 'pkg-1.ebuild'), 'w') as f:
+            f.write('EAPI=7\n')
+        with open(os.path.join(root, desc['name'], 'inner', 'f'), 'w') as f:
+            f.write('x')
+        xopt = []
+        if desc['what'] == 'loop':
+            os.symlink('../..', os.path.join(root, desc['name'], 'inner',
+                                             'back'))
+        else:
+            other = os.path.join(base, 'otherfs')
+            os.mkdir(other)
+            mountns.mount_tmpfs(other)
+            with open(os.path.join(other, 'g'), 'w') as f:
+                f.write('y')
+            os.symlink(other, os.path.join(root, desc['name'], 'ext'))
+            xopt = ['-x']
+        classes = ['profile:' + desc['profile'], 'what:' + desc['what'],
+                   'cmd:' + desc['cmd']]
+        argv = ['create'] + xopt + ['-p', desc['profile'], root]
+        oc, records, _ = gem.cli(argv)
+        what = f'`gemato {" ".join(argv[:-1])} <repo>`'
+        if desc['cmd'] == 'update' and oc.kind == 'return' and oc.value == 0:
+            with open(os.path.join(root, 'cat', 'pkg', 'new'), 'w') as f:
+                f.write('n')
+            argv = ['update'] + xopt + ['-p', desc['profile'], root]
+            oc, records, _ = gem.cli(argv)
+            what = f'`gemato {" ".join(argv[:-1])} <repo>` (after create)'
+        if oc.kind != 'return' or oc.value != 0:
+            return violation(
+                f'{what} with a {desc["what"]} beneath the profile-ignored '
+                f'directory {desc["name"]!r}: {oc.describe()} '
+                f'{[r.getMessage()[:120] for r in gem.error_records(records)]}',
+                sig=f'profile-ignored-directory-entered:{desc["what"]}',
+                classes=classes)
+        oc, records, _ = gem.cli(['verify'] + xopt + [root])
+        if oc.kind != 'return' or oc.value != 0:
+            return violation(
+                f'{what}: the result does not verify: {oc.describe()}',
+                sig='profile-ignored:verify-failed', classes=classes)
+        return ok(nontrivial=True, classes=classes)
+    finally:
+        if mountns._state['ok']:
+            mountns.umount_all_under(base)
+        harness.rmtree(base)
+
+
 PARTS = [
+    Part('profile-ignored', run_profile_ignored,
+         enumerate=enum_profile_ignored, exhaustive=True,
+         budget={'quick': 30, 'thorough': 60}),
     Part('loops', run_loops, strategy=strat_loops,
          examples={'quick': 40000, 'thorough': 400000},
          budget={'quick': 50, 'thorough': 700}),
